@@ -131,8 +131,14 @@ class XmlSchema(InterfaceDocumentBase):
     def build_schema_nodes(self, with_schema_location=False):
         self.schema_dict = {}
 
+        # customized types share the repr of the class they come from: break
+        # the tie with the name they are published under, or the order of the
+        # definitions (and of the namespace prefixes) varies from build to build
+        def key(cls):
+            return repr(cls), cls.get_namespace() or '', cls.get_type_name()
+
         tags = set()
-        for cls in chain.from_iterable(toposort2(self.interface.deps)):
+        for cls in chain.from_iterable(toposort2(self.interface.deps, key)):
             self.add(cls, tags)
 
         for pref in self.namespaces:
